@@ -18,6 +18,7 @@ From OV Require Import Base.Panic Base.Arith Base.RoundModel Model.Complex gen.P
                        Proofs.RoundFlx Proofs.ComplexRound Proofs.RootsRound.
 Import ListNotations.
 Local Open Scope R_scope.
+Import RRN.
 
 Definition ofC (z : C) : cplx AFlx := @mkC AFlx (fst z) (snd z).
 Definition toC (z : cplx AFlx) : C := (re z, im z).
